@@ -625,7 +625,9 @@ def _order_state(font):
     if lib is not None and not all(isinstance(x, str) for x in lib):
         return None
     layers = [[ln, sorted(font.layers[ln].keys())] for ln in font.layers.layerOrder]
-    return dict(lib=None if lib is None else list(lib), layers=layers)
+    dl = font.layers.defaultLayer
+    default = dl.name if dl is not None and dl.name in font.layers and font.layers[dl.name] is dl else None
+    return dict(lib=None if lib is None else list(lib), layers=layers, default=default)
 
 
 def order_before(self, op, details):
@@ -644,7 +646,7 @@ def order_before(self, op, details):
         elif k == "call" and tk == "layer" and op[2] in ("newGlyph", "insertGlyph"):
             mop = [Atom(op[2]), tgt.name, details["name"]]
         elif k == "call" and tk == "font" and op[2] == "newGlyph":
-            mop = [Atom("newGlyph"), font.layers.defaultLayer.name, op[3]]
+            mop = [Atom("fontNewGlyph"), op[3]]
         elif k == "delitem" and tk == "layer":
             mop = [Atom("delGlyph"), tgt.name, details["key"]]
         elif k == "set" and tk == "font" and op[2] == "glyphOrder":
@@ -676,7 +678,8 @@ def order_after(self, op, st, status, events):
         post = _order_state(font)
         if post is None:
             return None
-        line = [Atom("order"), st["op"], _optnames(st["lib"]), st["layers"]]
+        from sexp import opt
+        line = [Atom("order"), st["op"], _optnames(st["lib"]), st["layers"], opt(st["default"])]
         return line, [evs, _optnames(post["lib"])]
     except Exception:
         return None
